@@ -68,7 +68,7 @@ class C13(Prop):
             "integrate(t) calls only are compared with a single integrate to the same end; (d) a call at the current time must change nothing; (e) the "
             "caller's y0 array and constants dict are compared with deep copies after every op.  Non-trivial = at least one recorded step")
     assumptions = ["counters are excluded from the reset-vs-fresh comparison (a fresh system has spent one rhs call on its shape probe; C20 checks counters)",
-                   "split-vs-whole: bitwise for fixed-step explicit/splitting methods when all targets lie on the dt grid, otherwise within 200*(atol+rtol*|y|)*steps*amplification",
+                   "split-vs-whole: rounding level (64*n*eps) for fixed-step explicit/splitting methods when the two grids coincide, otherwise within 200*(atol+rtol*|y|)*steps*amplification",
                    "a reset system keeps its current method/tolerances/kick mask/tf and restores the constructor's dt"]
     quick = {"seeds": 400, "wall_cap": 80, "chunk": 8}
     thorough = {"seeds": 12000, "wall_cap": 1200, "chunk": 16}
@@ -173,8 +173,13 @@ class C13(Prop):
                     # need not coincide; when they do, a method without memory must give identical states
                     if bitwise_equal(a["t"], b["t"]):
                         res["probes"]["split_same_grid"] = res["probes"].get("split_same_grid", 0) + 1
-                        if not bitwise_equal(a["y"], b["y"]):
-                            bad("split_equals_whole_bitwise", "fixed-step run split into %d calls has the same grid as the single call but different states" % len(ops), len(ops) - 1)
+                        # the final step of each call is clamped to target - t, which may differ from dt in the last bit
+                        err = float(np.max(np.abs(np.asarray(a["y"] - b["y"], dtype=np.float64))))
+                        bound = 64 * a["n"] * eps * max(float(np.max(np.abs(a["y"]))), 1e-300)
+                        res["ratios"]["C13.split_equals_whole_rounding"] = max(res["ratios"].get("C13.split_equals_whole_rounding", 0), err / bound)
+                        if err > bound:
+                            bad("split_equals_whole_rounding", "fixed-step run split into %d calls has the same grid as the single call but states differ by %.3e (> %.3e)"
+                                % (len(ops), err, bound), len(ops) - 1)
                 elif fam in ("explicit_adaptive", "implicit_adaptive", "richardson"):
                     integ = w.system.integrator
                     rtol, atol = float(integ.rtol), float(integ.atol)
